@@ -82,6 +82,12 @@ def fault_atoms():
         [["on_disconnect_send", "zone_ctrl", "idem"], ["on_connect_send", "ac_ctrl", "idem"],
          ["fin"]],
         [["slow_conn", 3.0], ["fin"]],
+        # the socket is re-opened from inside the disconnected notification of its own close()
+        # (the explicit open afterwards is a no-op then; it re-opens if an earlier
+        # disconnection had already used up the hook)
+        [["on_disconnect_open"], ["close"], ["open"]],
+        [["on_disconnect_open"], ["slow_conn", 1.0], ["close"], ["open"], ["status"]],
+        [["open"]],                        # open_socket() while open
         # a subscriber that fails when it is called (not when it is awaited)
         [["sync_raise", "msg"], ["status"]],
         [["sync_raise", "conn"], ["fin"]],
@@ -363,6 +369,13 @@ def judge(gen, run, out):
             break
     for seq, t, kind, d in log.events:
         if kind == "LOOP.unhandled":
+            if "never retrieved" in (d.get("message") or "") and "subscriber fails" in (
+                    d.get("exc") or ""):
+                # the harness's own failing subscriber, orphaned when close() cancelled the
+                # task that was waiting for it: the application's exception, nobody's fault
+                obs["orphaned_failing_subscriber_tasks"] = obs.get(
+                    "orphaned_failing_subscriber_tasks", 0) + 1
+                continue
             v("unhandled-exception-in-loop", message=d.get("message"), exc=d.get("exc"))
             break
     if "fail" in out:
